@@ -8,10 +8,11 @@ package main
 //	         shows itself is not judged, and it contributes nothing to its
 //	         ancestors. Otherwise: some ERROR -> ERROR; all equal -> that
 //	         value; else MIXED.
-//	status : over ALL leaf descendants. None -> not judged, contributes
-//	         nothing. Some UNDEPLOYABLE -> UNDEPLOYABLE (if at the same time
-//	         something else is missing the statement's two clauses collide and
-//	         PARTIAL is accepted as well). All ACTIVE -> ACTIVE. All INACTIVE ->
+//	status : over ALL leaf descendants (a role without any leaf below does not
+//	         exist in a loaded tree: Load prunes it, and expand() predicts that).
+//	         Some UNDEPLOYABLE -> UNDEPLOYABLE (if at the same time something
+//	         else is missing the statement's two clauses collide and PARTIAL
+//	         is accepted as well). All ACTIVE -> ACTIVE. All INACTIVE ->
 //	         INACTIVE (PARTIAL also accepted: "anything missing makes it
 //	         PARTIAL"). Everything else -> PARTIAL.
 //	leaves : report the last value they were given.
@@ -38,11 +39,13 @@ type LNode struct {
 	St      sm.State
 	Ss      task.Status
 	LeafIdx int
+	Pruned  int // listed aggregating children predicted to be pruned away (empty)
 }
 
 func (l *LNode) isLeaf() bool { return l.Kind == "task" || l.Kind == "call" }
 
-// expand builds the logical tree Load is expected to produce.
+// expand builds the logical tree Load is expected to produce, including the
+// pruning of empty iterators and of the aggregators emptied by them.
 func expand(root *Spec) *LNode {
 	n := &LNode{Kind: "agg", Name: "", Key: "r"}
 	expandKids(n, root)
@@ -54,12 +57,22 @@ func expandKids(n *LNode, s *Spec) {
 		cnt := 1
 		if k.Iter >= 0 {
 			cnt = k.Iter
+			if cnt == 0 {
+				n.Pruned++ // iterator over an empty range: absent
+			}
 		}
 		for i := 0; i < cnt; i++ {
 			c := &LNode{Kind: k.Kind, Crit: k.Crit, Name: instName(k, i), Parent: n}
 			c.Key = n.Key + "/" + instName(k, i)
 			if !c.isLeaf() {
 				expandKids(c, k)
+				if len(c.Kids) == 0 {
+					// Pruning: an iterator over an empty range produces nothing and is
+					// filtered out of its parent; an aggregator / include left without
+					// any role disables itself and is filtered out in turn (recursively).
+					n.Pruned++
+					continue
+				}
 			}
 			n.Kids = append(n.Kids, c)
 		}
@@ -245,44 +258,6 @@ func (l *LNode) leafStatuses() []task.Status {
 
 func (l *LNode) refStatus() ssOp {
 	return combineStatuses(l.leafStatuses())
-}
-
-// h1Status: "an aggregator without any leaf below contributes what it shows".
-func (l *LNode) h1Status() (task.Status, bool) {
-	o := l.h1StatusSet()
-	if !o.has {
-		return 0, false
-	}
-	return o.accept[0], true
-}
-
-func (l *LNode) h1StatusSet() ssOp {
-	if l.isLeaf() {
-		return ssOp{true, []task.Status{l.Ss}}
-	}
-	var vs []task.Status
-	for _, k := range l.Kids {
-		if !k.isLeaf() && len(k.leafStatuses()) == 0 {
-			vs = append(vs, k.Role.GetStatus())
-			continue
-		}
-		if v, ok := k.h1Status(); ok {
-			vs = append(vs, v)
-		}
-	}
-	return combineStatuses(vs)
-}
-
-func (l *LNode) hasLeaflessAggBelow() bool {
-	found := false
-	for _, k := range l.Kids {
-		k.walk(func(n *LNode) {
-			if !n.isLeaf() && len(n.leafStatuses()) == 0 {
-				found = true
-			}
-		})
-	}
-	return found
 }
 
 // ---------------- canonical descriptions ----------------
